@@ -284,6 +284,17 @@ def convArgs (e : Env) (r : Rec) (ctx : Ctx) (args : ANode) : M Doc := do
   let p ← if hp then convParenArgs e r ctx args else pure Doc.nil
   pure (p ++ (← convAdditionalArgs e r ctx args hp))
 
+mutual
+/-- `is_ends_with_hashed_expr`: the text of the node ends with a hashed expression, at any depth. -/
+def endsWithHashedExpr : ANode → Bool
+  | .leaf _ _ _ => false
+  | .inner _ cs _ => endsWithHashedExprL false cs
+def endsWithHashedExprL (prevHash : Bool) : List ANode → Bool
+  | [] => false
+  | [a] => (prevHash && isExpr a) || endsWithHashedExpr a
+  | a :: rest => endsWithHashedExprL (a.kind == .hash) rest
+end
+
 def mathArgProducer (e : Env) (r : Rec) (peek : Bool) (c : Ctx) (child : ANode) : M (Bool × Option FlowItem) := do
   match child.kind with
   | .comma => pure (false, tightSpaced (← e.synLeaf child ","))
@@ -291,10 +302,7 @@ def mathArgProducer (e : Env) (r : Rec) (peek : Bool) (c : Ctx) (child : ANode) 
   | .space => if hasLinebreak child.text then pure (peek, tight hardline) else pure (peek, none)
   | _ =>
     if isArg child then
-      let ends := match child.children.reverse with
-        | a :: b :: _ => isExpr a && b.kind == .hash
-        | _ => false
-      pure (ends, spaced (← convArg e r c child))
+      pure (endsWithHashedExpr child, spaced (← convArg e r c child))
     else reject (.dropped "convert_args_in_math" child.kind)
 
 /-- `convert_args_in_math`. -/
